@@ -274,7 +274,11 @@ def eager_base(case, raw):
         names = base.get("hdr")
         inv = {i: n for i, n in enumerate(names)} if names is not None else {}
         out = {}
+        if names is not None and len(set(names)) != len(names):
+            raise Undefined("header does not name every column exactly once")
         for k, v in d.items():
+            if names is not None and k not in inv:
+                raise Undefined("a key without a header name")
             out[inv.get(k, k)] = lazy_enc_apply(encs[k], v) if k in encs else v
         return ES(out, None, inv)
     return ES(d)
@@ -840,7 +844,7 @@ def real_access(r, acc, e):
         return {"e": type(ex).__name__}
 
 
-TABLE_KEYS = ("kind", "base", "rows", "ri", "acc", "perm")
+TABLE_KEYS = ("kind", "base", "rows", "ri", "acc", "perm", "nonuniform")
 
 
 def tables_of(case):
@@ -1067,11 +1071,15 @@ class C13(Property):
             "EncodeCatRows(onehot|onehot_tuple|string|None); 3-10 accesses (position incl. len and len+1, name, iter, len, keys, items, copy, "
             "headers, == same/reflected/lazy/perturbed, label, tipe, feats.<access>) on one row, the same accesses permuted and then repeated "
             "on a fresh copy; in 45 % of the cases the SAME filter objects then process one or two further tables (the first table with columns permuted / "
-            "one removed / one added, headers and base encoders moving with their column, or converted dense<->sparse), each judged against its own eager model; non-trivial = at least one stage or a lazy base, and at least 3 accesses with an eager value; distinct by canonical JSON")
+            "one removed / one added, headers and base encoders moving with their column, or converted dense<->sparse), each judged against its own eager model and sent through the model's `session` in one request (theorem filter_stateless); 4 % of the multi-row dense tables are jagged (flag nonuniform: only the first-row model is compared); non-trivial = at least one stage or a lazy base, and at least 3 accesses with an eager value; distinct by canonical JSON")
     trusted_base = [
         "cells are small ints, decimal-integer strings, short words, '?', '', None and Categoricals; float() of ARFF numerics is modelled on "
         "integer literals only (an integer-valued float: equal to the int, str() gives 'N.0'; compared as an exact rational)",
-        "the table is rectangular and column-typed (the *Rows filters derive their arguments from the first row; the model derives them from the observed row itself)",
+        "dense tables: the driver runs the first-row model tableD1 (filter arguments from the first incoming row, as the code); the per-row theorems apply when "
+        "uniformRun holds (theorem first_row_irrelevant; reported per case as `uniform`, part of hyp). Sparse tables: EncodeCatRows' keys and LabelRows' `_inv` are still "
+        "taken from the observed row itself (tables with equal key sets for categoricals / one header map)",
+        "sparse rows: the order in which EncodeSparse/LazySparse list their default ('not sparse') entries is a Python set order; the model fixes one order and the "
+        "harness compares items()/copy() as finite maps",
         "ARFF text parsing itself (tokenising, dialect detection) belongs to C12; here ArffReader only sees simple comma/space separated tokens",
         "exceptions are compared by presence (raised / not raised), not by class",
     ]
@@ -1084,18 +1092,9 @@ class C13(Property):
     ]
     partial_theorems = {
         "Coba.C13.feats_label_partial": "forced hypothesis: LabelRows is the last stage. feats/label/tipe are forwarded by __getattr__ to the "
-                                        "LabelDense wrapper and ignore every stage applied afterwards (feats_label_counterexample, recorded C13-F8)",
-        "Coba.C13.feats_label_sparse_partial": "same forced hypothesis for sparse rows (feats_label_sparse_counterexample, recorded C13-F9); "
-                                               "also restricted to simpleBase / noEnccat",
-        "Coba.C13.sparse_get_partial": "two-sided by-key statement; false for header-mapped LazySparse bases, which also answer to their raw integer "
-                                       "keys (sparse_get_counterexample); simpleBase = dict or LazySparse without header map",
-        "Coba.C13.sparse_defined_partial": "sparse theorems are proved for simpleBase (dict / LazySparse without header map) and pipelines without an "
-                                           "effective EncodeCatRows; ArffReader's sparse rows and EncodeCatRows on dicts are model + correspondence only",
-        "Coba.C13.sparse_row_dropped_partial": "as sparse_defined_partial",
-        "Coba.C13.items_eq_partial": "as sparse_defined_partial",
-        "Coba.C13.sparse_keys_eq_partial": "as sparse_defined_partial",
-        "Coba.C13.sparse_len_eq_partial": "as sparse_defined_partial",
-        "Coba.C13.sparse_observations_partial": "as sparse_defined_partial",
+                                        "LabelDense wrapper and ignore every stage applied afterwards (feats_label_counterexample, recorded C13-F8); "
+                                        "no small repair exists (every wrapper class would need its own feats/label with new index arithmetic)",
+        "Coba.C13.feats_label_sparse_partial": "same forced hypothesis for sparse rows (feats_label_sparse_counterexample, recorded C13-F9)",
     }
 
     # -------------------------------------------------------------- generation
@@ -1532,6 +1531,14 @@ class C13(Property):
 
     def generate(self, rng, tier):
         case = self.make_case(rng, tier)
+        if (case["kind"] == "dense" and case["base"]["wrap"] in ("plain", "tuple", "lazy") and len(case["rows"]) > 1
+                and len(case["rows"][0]) > 1 and rng.chance(0.04)):
+            # a jagged table: a later row is shorter than the first one. Only the first-row model (tableD1) is compared.
+            j = 1 + rng.below(len(case["rows"]) - 1)
+            case["rows"][j] = case["rows"][j][:-1]
+            case["nonuniform"] = True
+            case["ri"] = j if rng.chance(0.7) else case["ri"]
+            return case
         k = rng.wchoice([(5, 0), (4, 1), (2, 2)])
         if k and case["rows"] and case["stages"]:
             case["others"] = [self.derive_table(rng, case) for _ in range(k)]
@@ -1602,6 +1609,26 @@ class C13(Property):
         c = mk("dense", plain, [[1, {"cat": "q", "lv": ["p", "q", "r"]}, 2]], [{"op": "enccat", "t": "onehot"}], full_d)
         c["others"] = [tab("dense", plain, [[{"cat": "p", "lv": ["p", "q"]}, 5]], full_d), tab("dense", plain, [[7, 8, 9, 10]], full_d)]
         cs.append(c)
+        # rows that do not look like the first row: only the first-row model (tableD1) is compared
+        nu = mk("dense", plain, [[{"cat": "p", "lv": ["p", "q"]}, 1], [None, 2], [3, {"cat": "q", "lv": ["p", "q"]}]], [{"op": "enccat", "t": "string"}],
+                [{"a": "iter"}, {"a": "pos", "i": 0}, {"a": "pos", "i": 1}, {"a": "len"}], 1)
+        nu["nonuniform"] = True
+        cs.append(nu)
+        nu = mk("dense", plain, [[{"cat": "p", "lv": ["p", "q"]}, 1], [3, {"cat": "q", "lv": ["p", "q"]}]], [{"op": "enccat", "t": "onehot"}],
+                [{"a": "iter"}, {"a": "len"}], 1)
+        nu["nonuniform"] = True
+        cs.append(nu)
+        nu = mk("dense", plain, [[1, 2, 3], [4, 5]], [{"op": "drop", "cols": [2], "pred": None}], [{"a": "iter"}, {"a": "len"}, {"a": "pos", "i": 1}, {"a": "pos", "i": 2}], 1)
+        nu["nonuniform"] = True
+        cs.append(nu)
+        nu = mk("dense", plain, [["1", "2", "3"], ["4", "5"]], [{"op": "encode", "map": [[0, "int"], [2, "int"]]}, {"op": "label", "k": 1, "t": "r"}],
+                [{"a": "iter"}, {"a": "len"}, {"a": "pos", "i": 0}, {"a": "pos", "i": 2}, {"a": "label"}, {"a": "feats", "sub": {"a": "iter"}}], 1)
+        nu["nonuniform"] = True
+        cs.append(nu)
+        nu = mk("dense", plain, [["1", "2"], ["4", "5", "6"]], [{"op": "head", "names": ["a", "b"]}, {"op": "drop", "cols": ["a"], "pred": None}],
+                [{"a": "iter"}, {"a": "len"}, {"a": "name", "k": "b"}, {"a": "headers"}, {"a": "pos", "i": 1}], 1)
+        nu["nonuniform"] = True
+        cs.append(nu)
         # LabelRows(int) on header-mapped sparse rows: the label is translated to its header name
         cs.append(mk("sparse", {"wrap": "arff", "cols": [{"name": "a", "t": "num"}, {"name": "b", "t": "cat", "lv": ["p", "q"]}, {"name": "c", "t": "str"}]},
                      [[[0, "1"], [2, "x"]], [[1, "q"]]], [{"op": "label", "k": 1, "t": "c"}], full_s + lab_s))
@@ -1629,8 +1656,14 @@ class C13(Property):
             tabs = tables_of(case)
             runs = run_real_multi(case)
             outs = []
+            answers = [None] * len(tabs)
+            reqs = [None] * len(tabs)
+            if driver is not None:
+                # one request: the model's `session` sends the tables through one set of filter objects too (theorem filter_stateless)
+                reqs = [to_model(t, et, real.get("n")) for t, (real, et) in zip(tabs, runs)]
+                answers = driver.ask({"tables": reqs, "stages": case["stages"]})
             for idx, (t, (real, et)) in enumerate(zip(tabs, runs)):
-                o = self.eval_table(t, real, et, driver)
+                o = self.eval_table(t, real, et, driver, answers[idx], reqs[idx])
                 if idx > 0:
                     o["tags"] = ["table%d:%s" % (idx + 1, "eager-defined" if et is not None else "eager-undefined"), "later-table-kind:" + t["kind"]] + o["tags"]
                     bad = [f for f in o["fails"] if f["kind"] == "B"]
@@ -1662,9 +1695,15 @@ class C13(Property):
         return {"fails": fails, "nontrivial": any(o["nontrivial"] for o in outs), "tags": tags,
                 "impl": [o["impl"] for o in outs], "model": [o["model"] for o in outs]}
 
-    def eval_table(self, case, real, et, driver):
+    def eval_table(self, case, real, et, driver, ans=None, req=None):
         fails, tags = [], []
         kind = case["kind"]
+        et_a = et
+        if case.get("nonuniform"):
+            # rows that do not look like the first row (jagged / categoricals at other positions): the per-row eager model does not
+            # describe what the filters (which look at the first row only) do; only the first-row model `tableD1` is compared (A)
+            tags.append("nonuniform-table")
+            et = None
         nacc = len(case["acc"])
         tags.append("kind:" + kind)
         tags.append("base:" + case["base"]["wrap"] + ("+loader" if case["base"].get("loader") else "") + ("+enc" if case["base"].get("enc") else "") + ("+hdr" if case["base"].get("hdr") is not None else ""))
@@ -1717,8 +1756,9 @@ class C13(Property):
         # (A) correspondence with the Lean model, (C) model vs spec
         model = None
         if driver is not None:
-            req = to_model(case, et, real.get("n"))
-            ans = driver.ask({"case": req})
+            if ans is None:
+                req = to_model(case, et, real.get("n"))
+                ans = driver.ask({"case": req})
             model = ans
             m = ans["model"]
             raw_first = list(m.get("first") or [])
@@ -1748,7 +1788,7 @@ class C13(Property):
                     for j, acc in enumerate(case["acc"]):
                         if bsig[j] is not None:
                             continue        # already reported as (B); the model mirrors the repaired code there
-                        if et is None and leaf(acc)["a"] in ("iter", "copy", "eq", "items"):
+                        if et is None and not case.get("nonuniform") and leaf(acc)["a"] in ("iter", "copy", "eq", "items"):
                             # some cell's encoder raises (the eager table is undefined): which consumer pulls the failing cell
                             # (zip / compress / islice stop early) is not modelled; whole-row accesses are not compared then
                             tags.append("A-skipped-partial-iteration")
@@ -1770,6 +1810,12 @@ class C13(Property):
                 if d:
                     fails.append(F("A", "implementation and model differ: %s" % d[0], "A:" + d[1]))
             # (C) the theorems, at run time: model refines spec; a history of accesses = independent accesses
+            if kind == "dense" and ans.get("hyp") and not ans.get("uniform", True):
+                tags.append("not-uniform")          # some row does not look like the first row: outside first_row_irrelevant
+                ans["hyp"] = False
+            if kind == "sparse" and ans.get("hyp") and not ans.get("leak_safe", True):
+                tags.append("not-leak-safe")        # a stage addresses a hidden raw key of a header-mapped base: outside the theorems
+                ans["hyp"] = False
             if ans.get("hyp") and sp is not None and "first" in m and "first" in sp:
                 tags.append("hyp")
                 lnl = "label-not-last" in tags
